@@ -144,6 +144,39 @@ func checkC17(c *ctx) {
 			c.R.Inconclusive("cff produced no output for the " + mode + " corpus")
 			continue
 		}
+		// one invocation over many packages (./g/..., above) vs the package alone
+		var alone []*toolPkg
+		for i, p := range pkgs {
+			if p.Kind != "hazard" && i%c.pick(4, 2) == 0 {
+				alone = append(alone, p)
+			}
+		}
+		var aloneMu sync.Mutex
+		parallel(len(alone), func(pi int) {
+			p := alone[pi]
+			if c.R.NumViolations() >= 8 {
+				return
+			}
+			removeOutputs(dir, []*toolPkg{p})
+			tr := runTool(dir, cff, "-genmode", mode, "-quiet", "./"+p.Rel)
+			out := readOutputs(dir, []*toolPkg{p})
+			aloneMu.Lock()
+			defer aloneMu.Unlock()
+			for _, fn := range p.Files {
+				rel := filepath.Join(p.Rel, genName(fn))
+				want, had := ref[rel]
+				got, has := out[rel]
+				evalsSel++
+				if had != has || want != got {
+					why := firstDiff(want, got)
+					if had != has {
+						why = fmt.Sprintf("output written together with the other packages: %v, alone: %v", had, has)
+					}
+					c.R.Add(vc.Violation{Property: "C17", Case: mode + "/" + rel, Why: fmt.Sprintf("processing the package in one invocation with other packages (./%s/...) gives different output for %s than processing the package alone: %s (exit %d)", strings.SplitN(p.Rel, "/", 2)[0], fn, why, tr.Exit),
+						Witness: map[string]interface{}{"engine": "T", "mode": mode, "together": want, "alone": got, "stderr": tr.Stderr}})
+				}
+			}
+		})
 		// selection independence: -file singleton / subset vs whole package (static multi-file packages)
 		var evMu sync.Mutex
 		parallel(len(pkgs), func(pi int) {
@@ -222,7 +255,7 @@ func checkC17(c *ctx) {
 		"evaluations":         evals,
 		"distinct_nontrivial": len(distinct),
 		"rule": "Engine T: corpus of accepted packages (Engine G programs, static multi-file packages with several directives per file, import-collision hazards); cff run R times in fresh processes per mode (base, source-map) and every output compared byte for byte with the first run; " +
-			"then each static package re-run with -file selections and each output compared with the whole-package output; then test files (in-package and external) added to corpus packages and p_gen.go compared again; no CFF_MAGIC_TOKEN may remain. distinct = distinct output files compared; all non-trivial (each holds at least one expanded directive)",
+			"then a sample of packages re-run alone (the first runs process many packages per invocation) and compared; then each static package re-run with -file selections and each output compared with the whole-package output; then test files (in-package and external) added to corpus packages and p_gen.go compared again; no CFF_MAGIC_TOKEN may remain. distinct = distinct output files compared; all non-trivial (each holds at least one expanded directive)",
 		"samples":          samples,
 		"byte_comparisons": compared,
 	}
